@@ -434,3 +434,67 @@ func TestC18Lzcnt(t *testing.T) {
 	rec.Case(true, fmt.Sprintf("lzcnt|%d", len(vals)), "lzcnt")
 	rec.ClassN("lzcnt-values-checked", int64(len(vals)))
 }
+
+var (
+	c18BurstOnce sync.Once
+	c18BurstIDs  []uint32
+)
+
+// TestC18Burst: several goroutines, released together, each record one
+// distinct value into each of a set of histograms; then the period is read.
+// Count, exact min and max, and percentile membership must hold however the
+// concurrent updates of the extremes interleaved.
+func TestC18Burst(t *testing.T) {
+	c18Setup()
+	rec := evid.For("C18")
+	c18BurstOnce.Do(func() {
+		for i := 0; i < 24; i++ {
+			c18BurstIDs = append(c18BurstIDs, metrics.AddHistogram(fmt.Sprintf("verif_c18_burst%d", i), false, nil))
+		}
+	})
+	rounds := 150
+	if thorough() {
+		rounds = 3000
+	}
+	readMetrics()
+	x := uint64(evid.Seed())*0x9E3779B97F4A7C15 | 1
+	for round := 0; round < rounds; round++ {
+		g := []int{2, 3, 4, 8, 8, 16}[round%6]
+		vals := make([]uint64, g)
+		// ascending or descending runs make every observer a new extreme when it lands in order
+		x = x*6364136223846793005 + 1442695040888963407
+		base := 1000 + x>>44
+		for i := range vals {
+			vals[i] = base + uint64(i)*7
+		}
+		var ready, start int32
+		var wg sync.WaitGroup
+		for i := 0; i < g; i++ {
+			wg.Add(1)
+			go func(i int) {
+				defer wg.Done()
+				atomic.AddInt32(&ready, 1)
+				for atomic.LoadInt32(&start) == 0 {
+				}
+				for _, id := range c18BurstIDs {
+					metrics.ObserveHist(id, vals[i])
+				}
+			}(i)
+		}
+		for atomic.LoadInt32(&ready) < int32(g) {
+			runtime.Gosched()
+		}
+		atomic.StoreInt32(&start, 1)
+		wg.Wait()
+		m := readMetrics()
+		for hi := range c18BurstIDs {
+			hp := readHist(m, fmt.Sprintf("verif_c18_burst%d", hi))
+			if msg := checkPeriod(hp, vals, false); msg != "" {
+				p := rec.Violation("TestC18Burst", map[string]interface{}{"goroutines": g, "values": vals, "problem": msg, "reported": hp.Pctls})
+				t.Fatalf("C18 burst: %d goroutines observed %v at the same time: %s; reported %v; replay %s", g, vals, msg, hp.Pctls, p)
+			}
+		}
+		rec.Case(true, fmt.Sprintf("burst|%d|%d|%d", evid.Seed(), round, g), "hist-concurrent-burst")
+	}
+	rec.Sample(true, map[string]interface{}{"burst": "g goroutines released together, one distinct value each into 24 histograms, then the period is read", "rounds": rounds})
+}
